@@ -216,12 +216,14 @@ GeoSum(k, l) == IF l = 0 THEN 1 ELSE k * GeoSum(k, l-1) + 1
 LangUpTo(prog, al, n) == {w \in SeqsUpTo(al, n) : w # <<>> /\ (Len(w) + 1) \in EndsP(prog, w, 1)}
 RECURSIVE SpliceSumAcc(_,_,_)
 SpliceSumAcc(h, k, acc) == IF k > Len(h) THEN acc ELSE SpliceSumAcc(h, k + 1, (acc * 7 + h[k]) % 1000003)
+\* about `cap` of the spliced haystacks, chosen by a hash threshold that grows with cap: a smaller cap selects a SUBSET
+\* (the quick tier's inputs are among the thorough tier's)
 Splice(prog, al, cap) ==
   LET Lg  == LangUpTo(prog, al, 3)
       all == {SubSeq(t[1], 1, t[3]) \o t[2] : t \in {u \in Lg \X Lg \X (1..3) : u[3] <= Len(u[1])}}
       c   == Cardinality(all)
-      m   == IF c <= cap THEN 1 ELSE (c + cap - 1) \div cap
-  IN {x \in all : SpliceSumAcc(x, 1, Len(x)) % m = 0}
+      thr == IF c <= cap THEN 1000 ELSE IF (1000 * cap) \div c < 1 THEN 1 ELSE (1000 * cap) \div c
+  IN {x \in all : SpliceSumAcc(x, 1, Len(x)) % 1000 < thr}
 
 (* A fixed pseudo-random sample of longer haystacks (length 6 and 8) over the pattern's alphabet, chosen by the pattern's
    index: attempts that run for a while before they die, restarts inside what a failed attempt consumed. *)
